@@ -146,13 +146,13 @@ v("C07", "b10-index-ahead-of-len-guard", "break", "binder/mapping.go", "if i+1 <
 v("C07", "n3-len-guard-instead-of-hasprefix", "benign", "helpers.go", "\t\t\tif bytes.HasPrefix(accept[i:], []byte(\";q=\")) && bytes.IndexByte(accept[qIndex:], ';') == -1 {", "\t\t\tif len(accept) >= qIndex && string(accept[i:qIndex]) == \";q=\" && bytes.IndexByte(accept[qIndex:], ';') == -1 {", why="a len comparison bounds the same offset")
 
 # ---------------------------------------------------------------- C08
-v("C08", "b1-non-strict-compare", "break", "app.go", "len(prefix) > mountedPrefixLen {", "len(prefix) >= mountedPrefixLen {", "strict-injective-key", "non-strict comparison")
+v("C08", "b1-non-strict-compare", "break", "app.go", "if len(prefix) > mountedPrefixLen || (len(prefix) == mountedPrefixLen && mountPoint < mountedPrefix) {", "if len(prefix) >= mountedPrefixLen || (len(prefix) == mountedPrefixLen && mountPoint < mountedPrefix) {", "strict-injective-key", "non-strict comparison")
 v("C08", "b2-no-boundary", "break", "app.go", "\t\tif len(path) > len(prefix) && prefix[len(prefix)-1] != '/' && path[len(prefix)] != '/' {\n\t\t\tcontinue\n\t\t}\n", "", "segment-boundary", "bare HasPrefix")
-v("C08", "b3-key-updated-separately", "break", "app.go", "\t\tif subApp.configured.ErrorHandler != nil && len(prefix) > mountedPrefixLen {\n\t\t\tmountedErrHandler = subApp.config.ErrorHandler\n\t\t\tmountedPrefixLen = len(prefix)\n\t\t}",
-  "\t\tif len(prefix) > mountedPrefixLen {\n\t\t\tif subApp.configured.ErrorHandler != nil {\n\t\t\t\tmountedErrHandler = subApp.config.ErrorHandler\n\t\t\t}\n\t\t\tmountedPrefixLen = len(prefix)\n\t\t}", "selection-updated-together", "deeper unconfigured app shadows")
+v("C08", "b3-key-updated-separately", "break", "app.go", "\t\tif subApp.configured.ErrorHandler == nil {\n\t\t\tcontinue\n\t\t}\n\t\tif len(prefix) > mountedPrefixLen || (len(prefix) == mountedPrefixLen && mountPoint < mountedPrefix) {\n\t\t\tmountedErrHandler = subApp.config.ErrorHandler\n",
+  "\t\tif len(prefix) > mountedPrefixLen || (len(prefix) == mountedPrefixLen && mountPoint < mountedPrefix) {\n\t\t\tif subApp.configured.ErrorHandler != nil {\n\t\t\t\tmountedErrHandler = subApp.config.ErrorHandler\n\t\t\t}\n", "selection-updated-together", "deeper unconfigured app shadows")
 v("C08", "b4-handler-error-swallowed", "break", "router.go", "\t_, err := app.next(ctx)\n\tif err != nil {\n\t\tif catch := ctx.App().ErrorHandler(ctx, err); catch != nil {", "\t_, err := app.next(ctx)\n\tif err != nil && ctx.matched {\n\t\tif catch := ctx.App().ErrorHandler(ctx, err); catch != nil {", "defaultRequestHandler:at-least-once", "404/405 errors never reach a handler")
 v("C08", "b5-default-status-200", "break", "app.go", "\tcode := StatusInternalServerError\n\tvar e *Error", "\tcode := StatusOK\n\tvar e *Error", "DefaultErrorHandler:status-source", "plain errors answered 200")
-v("C08", "b6-unconfigured-subapp-selected", "break", "app.go", "if subApp.configured.ErrorHandler != nil && len(prefix) > mountedPrefixLen {", "if len(prefix) > mountedPrefixLen {", "only-configured-subapps", "sub-app default handler shadows parent's custom one")
+v("C08", "b6-unconfigured-subapp-selected", "break", "app.go", "\t\tif subApp.configured.ErrorHandler == nil {\n\t\t\tcontinue\n\t\t}\n\t\tif len(prefix) > mountedPrefixLen", "\t\tif len(prefix) > mountedPrefixLen", "only-configured-subapps", "sub-app default handler shadows parent's custom one")
 v("C08", "n1-path-inside-loop", "benign", "app.go", "\t\tif prefix == \"\" || !strings.HasPrefix(path, prefix) {", "\t\tif len(prefix) == 0 || !strings.HasPrefix(path, prefix) {", why="equivalent emptiness test")
 
 # ---------------------------------------------------------------- C09
@@ -396,6 +396,42 @@ v("C11", "n6-float-bits-from-type", "benign", "client/request.go", "strconv.Form
 v("C12", "n5-flash-prefilter-neq", "benign", "router.go", "\trawHeaders := ctx.Request().Header.RawHeaders()\n\tif len(rawHeaders) > 0 && bytes.Contains(rawHeaders, []byte(FlashCookieName)) {\n\t\tctx.Redirect().parseAndClearFlashMessages()\n\t}\n\n\t// Attempt to match a route and execute the chain\n\t_, err := app.next(ctx)", "\trawHeaders := ctx.Request().Header.RawHeaders()\n\tif len(rawHeaders) != 0 {\n\t\tif bytes.Contains(rawHeaders, []byte(FlashCookieName)) {\n\t\t\tctx.Redirect().parseAndClearFlashMessages()\n\t\t}\n\t}\n\n\t// Attempt to match a route and execute the chain\n\t_, err := app.next(ctx)", why="the two tests nested")
 v("C18", "n8-host-cut-bracket-aware", "benign", "client/cookiejar.go", "\tif h, _, err := net.SplitHostPort(utils.UnsafeString(host)); err == nil {\n\t\treturn utils.UnsafeBytes(h)\n\t}\n\treturn host\n}", "\tif i := bytes.LastIndexByte(host, ':'); i >= 0 && bytes.IndexByte(host[i:], ']') < 0 {\n\t\th := host[:i]\n\t\tif len(h) > 1 && h[0] == '[' {\n\t\t\th = h[1 : len(h)-1]\n\t\t}\n\t\treturn h\n\t}\n\tif len(host) > 1 && host[0] == '[' && host[len(host)-1] == ']' {\n\t\treturn host[1 : len(host)-1]\n\t}\n\treturn host\n}", why="a hand-written split that looks at the closing bracket (same results as net.SplitHostPort for host, host:port, [v6], [v6]:port)")
 v("C07", "n9-static-prefix-test-neq", "benign", "middleware/static/static.go", "\t\t\t\tif len(path) > 0 && path[0] != '/' {", "\t\t\t\tif len(path) != 0 && path[0] != '/' {", why="the length test written with !=")
+
+v("C08", "b9-no-tie-break-among-case-duplicates", "break", "app.go", "if len(prefix) > mountedPrefixLen || (len(prefix) == mountedPrefixLen && mountPoint < mountedPrefix) {", "if len(prefix) > mountedPrefixLen {", "folded-keys-need-a-tie-break", "reverts F47", file2="app.go", find2="\t\t\tmountedPrefix = mountPoint\n", replace2="\t\t\tmountedPrefix = mountPoint\n\t\t\t_ = mountedPrefix\n")
+v("C08", "b10-tie-break-without-length-equality", "break", "app.go", "if len(prefix) > mountedPrefixLen || (len(prefix) == mountedPrefixLen && mountPoint < mountedPrefix) {", "if len(prefix) > mountedPrefixLen || mountPoint < mountedPrefix {", "strict-injective-key", "the key comparison alone is no order on (length, key)")
+v("C08", "n6-tie-break-nested-ifs", "benign", "app.go", "\t\tif len(prefix) > mountedPrefixLen || (len(prefix) == mountedPrefixLen && mountPoint < mountedPrefix) {\n\t\t\tmountedErrHandler = subApp.config.ErrorHandler\n\t\t\tmountedPrefixLen = len(prefix)\n\t\t\tmountedPrefix = mountPoint\n\t\t}\n", "\t\tif len(prefix) < mountedPrefixLen {\n\t\t\tcontinue\n\t\t}\n\t\tif len(prefix) == mountedPrefixLen {\n\t\t\tif mountPoint >= mountedPrefix {\n\t\t\t\tcontinue\n\t\t\t}\n\t\t}\n\t\tmountedErrHandler = subApp.config.ErrorHandler\n\t\tmountedPrefixLen = len(prefix)\n\t\tmountedPrefix = mountPoint\n", why="the same order written as early continues")
+
+
+# ---------------------------------------------------------------- round 4: reverts of F48–F52 and variants of the rules added with them
+v("C09", "b9-weight-name-lower-case-only", "break", "helpers.go", "if len(key) == 1 && (key[0] == 'q' || key[0] == 'Q') {", "if len(key) == 1 && key[0] == 'q' {", "weight-name-any-case", "reverts F48")
+v("C09", "n7-weight-name-folded", "benign", "helpers.go", "if len(key) == 1 && (key[0] == 'q' || key[0] == 'Q') {", "if len(key) == 1 && key[0]|0x20 == 'q' {", why="the name's byte folded with |0x20")
+v("C18", "b14-url-split-at-every-question-mark", "break", "client/hooks.go", "splitURL := strings.SplitN(req.url, \"?\", 2)", "splitURL := strings.Split(req.url, \"?\")", "first-only", "reverts F49")
+v("C18", "n9-url-cut", "benign", "client/hooks.go", "\tsplitURL := strings.SplitN(req.url, \"?\", 2)\n\t// Ensure splitURL has at least two elements.\n\tsplitURL = append(splitURL, \"\")\n", "\tbeforeQuery, afterQuery, _ := strings.Cut(req.url, \"?\")\n\tsplitURL := []string{beforeQuery, afterQuery}\n", why="strings.Cut instead of SplitN")
+v("C18", "b15-path-params-two-passes", "break", "client/hooks.go", "\tparams := make(PathParam, len(*c.path)+len(*req.path))\n\tfor key, val := range *c.path {\n\t\tparams[key] = val\n\t}\n\tfor key, val := range *req.path {\n\t\tparams[key] = val\n\t}\n\tparams.VisitAll(func(key, val string) {\n\t\turi = strings.ReplaceAll(uri, \":\"+key, val)\n\t})\n", "\treq.path.VisitAll(func(key, val string) {\n\t\turi = strings.ReplaceAll(uri, \":\"+key, val)\n\t})\n\tc.path.VisitAll(func(key, val string) {\n\t\turi = strings.ReplaceAll(uri, \":\"+key, val)\n\t})\n", "one-ordered-pass", "reverts F50")
+v("C18", "b16-merged-params-client-wins", "break", "client/hooks.go", "\tfor key, val := range *c.path {\n\t\tparams[key] = val\n\t}\n\tfor key, val := range *req.path {\n\t\tparams[key] = val\n\t}\n", "\tfor key, val := range *req.path {\n\t\tparams[key] = val\n\t}\n\tfor key, val := range *c.path {\n\t\tparams[key] = val\n\t}\n", "request-before-client", "the client level written last overrides the request level")
+v("C07", "b14-error-classified-by-message", "break", "app.go", "\tcase errors.Is(err, fasthttp.ErrGetOnly):\n\t\terr = ErrMethodNotAllowed\n\tdefault:", "\tcase errors.Is(err, fasthttp.ErrGetOnly):\n\t\terr = ErrMethodNotAllowed\n\tcase strings.Contains(err.Error(), \"timeout\"):\n\t\terr = ErrRequestTimeout\n\tdefault:", "no-message-test", "reverts F51")
+v("C04", "b10-mount-first-listed-prefix-only", "break", "app.go", "\t\tif subApp != nil {\n\t\t\tapp.mount(prefix, subApp)\n\t\t\tcontinue\n\t\t}\n", "\t\tif subApp != nil {\n\t\t\tapp.mount(prefix, subApp)\n\t\t\treturn app\n\t\t}\n", "every-listed-prefix", "reverts F52 for App.Use")
+v("C04", "b11-group-use-registers-outer-prefix", "break", "group.go", "\tfor _, prefix := range prefixes {\n\t\tif subApp != nil {\n\t\t\tgrp.mount(prefix, subApp)\n\t\t\tcontinue\n\t\t}\n", "\tfor _, p := range prefixes {\n\t\tif subApp != nil {\n\t\t\tgrp.mount(p, subApp)\n\t\t\tcontinue\n\t\t}\n", "registers-the-list-element", "loop variable renamed, register keeps the outer prefix")
+v("C04", "b12-constraints-appended-in-place", "break", "router.go", "\t\tconstraints = append(append(make([]CustomConstraint, 0, len(constraints)+len(own)), constraints...), own...)\n", "\t\tconstraints = append(constraints, own...)\n", "constraint-list-of-its-own", "in-place append into the parent's slice")
+v("C04", "n8-constraints-slices-concat", "benign", "router.go", "\t\tconstraints = append(append(make([]CustomConstraint, 0, len(constraints)+len(own)), constraints...), own...)\n", "\t\tconstraints = slices.Concat(constraints, own)\n", why="slices.Concat allocates a new slice", file2="router.go", find2="import (\n", replace2="import (\n\t\"slices\"\n")
+v("C02", "b10-min-constraint-error-shadowed", "break", "path.go", "\t\tdata, _ := strconv.Atoi(c.Data[0])\n\t\tnum, err = strconv.Atoi(param)\n\n\t\tif err != nil || num < data {\n\t\t\treturn false\n\t\t}\n\tcase maxConstraint:", "\t\tdata, err := strconv.Atoi(c.Data[0])\n\t\tif err != nil {\n\t\t\treturn false\n\t\t}\n\t\tnum, err = strconv.Atoi(param)\n\t\tif num < data {\n\t\t\treturn false\n\t\t}\n\tcase maxConstraint:", "error-consumed", "the value's parse error lands in a shadowed variable")
+v("C06", "b6-original-body-kept-as-view", "break", "ctx.go", "\t\t\t\ttempBody := c.fasthttp.Request.Body()\n\t\t\t\t*originalBody = make([]byte, len(tempBody))\n\t\t\t\tcopy(*originalBody, tempBody)\n", "\t\t\t\t*originalBody = c.fasthttp.Request.Body()\n", "holds-a-copy", "the body as sent kept as a view")
+v("C06", "n6-original-body-append-copy", "benign", "ctx.go", "\t\t\t\ttempBody := c.fasthttp.Request.Body()\n\t\t\t\t*originalBody = make([]byte, len(tempBody))\n\t\t\t\tcopy(*originalBody, tempBody)\n", "\t\t\t\t*originalBody = utils.CopyBytes(c.fasthttp.Request.Body())\n", why="copied with utils.CopyBytes")
+v("C08", "b11-group-mount-stores-outer-app", "break", "mount.go", "\t\tsubApp.mountFields.mountPath = path\n\t\tgrp.app.mountFields.appList[path] = subApp\n\t}", "\t\tsubApp.mountFields.mountPath = path\n\t\tgrp.app.mountFields.appList[path] = grp.app\n\t}", "entry-keeps-its-app", "every copied prefix maps to one app")
+v("C08", "b12-error-handler-by-original-url", "break", "app.go", "\tpath := ctx.Path()\n\tif !app.config.CaseSensitive {\n\t\tpath = utils.ToLower(path)\n\t}\n\tfor mountPoint", "\tpath := ctx.OriginalURL()\n\tif !app.config.CaseSensitive {\n\t\tpath = utils.ToLower(path)\n\t}\n\tfor mountPoint", "selects-by-request-path", "the query string takes part in the selection")
+v("C10", "b10-scheme-trust-before-tls", "break", "ctx.go", "\tif c.fasthttp.IsTLS() {\n\t\treturn schemeHTTPS\n\t}\n\tif !c.IsProxyTrusted() {\n\t\treturn schemeHTTP\n\t}\n", "\tif !c.IsProxyTrusted() {\n\t\treturn schemeHTTP\n\t}\n\tif c.fasthttp.IsTLS() {\n\t\treturn schemeHTTPS\n\t}\n", "tls-decides-first", "untrusted peers on TLS reported as http")
+v("C12", "b8-prefilter-line-prefix", "break", "router.go", "\tif len(rawHeaders) > 0 && bytes.Contains(rawHeaders, []byte(FlashCookieName)) {\n\t\tctx.Redirect().parseAndClearFlashMessages()\n\t}\n\n\t// Attempt to match a route and execute the chain\n\t_, err := app.next(ctx)", "\tif len(rawHeaders) > 0 && bytes.Contains(rawHeaders, []byte(\"Cookie: \"+FlashCookieName)) {\n\t\tctx.Redirect().parseAndClearFlashMessages()\n\t}\n\n\t// Attempt to match a route and execute the chain\n\t_, err := app.next(ctx)", "not-narrower-than-the-parser", "the pre-filter wants the cookie first on its line")
+v("C12", "n6-prefilter-name-with-equals", "benign", "router.go", "\tif len(rawHeaders) > 0 && bytes.Contains(rawHeaders, []byte(FlashCookieName)) {\n\t\tctx.Redirect().parseAndClearFlashMessages()\n\t}\n\n\t// Attempt to match a route and execute the chain\n\t_, err := app.next(ctx)", "\tif len(rawHeaders) > 0 && bytes.Contains(rawHeaders, []byte(FlashCookieName+\"=\")) {\n\t\tctx.Redirect().parseAndClearFlashMessages()\n\t}\n\n\t// Attempt to match a route and execute the chain\n\t_, err := app.next(ctx)", why="`name=` occurs wherever the cookie does")
+v("C12", "b9-decode-loop-stops-on-empty-rest", "break", "redirect.go", "\tfor i := uint32(0); i < size; i++ {", "\tfor i := uint32(0); i < size && len(rest) > 0; i++ {", "all-announced-messages-or-none", "a cut cookie delivers its first messages")
+v("C13", "b11-scratch-buffer-to-storage", "break", "middleware/limiter/manager.go", "\t\tif raw, err := it.MarshalMsg(nil); err == nil {\n", "\t\tif raw, err := it.MarshalMsg(m.scratch[:0]); err == nil {\n\t\t\tm.scratch = raw\n", "fresh-bytes", "one buffer for every key", file2="middleware/limiter/manager.go", find2="\tstorage fiber.Storage\n}", replace2="\tstorage fiber.Storage\n\tscratch []byte\n}")
+v("C13", "b12-default-on-raw-duration", "break", "middleware/limiter/config.go", "\tif int(cfg.Expiration.Seconds()) <= 0 {", "\tif cfg.Expiration <= 0 {", "on-whole-seconds", "sub-second windows truncate to zero")
+v("C13", "n7-default-on-seconds-local", "benign", "middleware/limiter/config.go", "\tif int(cfg.Expiration.Seconds()) <= 0 {", "\tif secs := int(cfg.Expiration.Seconds()); secs <= 0 {", why="the seconds in a local variable")
+v("C14", "b14-header-names-as-views", "break", "middleware/cache/cache.go", "\t\t\t\t\tkeyS := string(key)\n", "\t\t\t\t\tkeyS := utils.UnsafeString(key)\n", "copied", "stored header names alias the response buffer")
+v("C16", "b11-failed-delete-reported-as-success", "break", "middleware/csrf/storage_manager.go", "\t\treturn m.storage.Delete(key) //nolint:wrapcheck // the storage's error is the caller's error\n", "\t\tif err := m.storage.Delete(key); err != nil {\n\t\t\tif m.getRaw(key) == nil {\n\t\t\t\treturn nil\n\t\t\t}\n\t\t\treturn err //nolint:wrapcheck // the storage's error is the caller's error\n\t\t}\n\t\treturn nil\n", "failure-is-final", "a second look (errors discarded) turns the failure into success")
+v("C18", "b17-swap-removal-without-step-back", "break", "client/cookiejar.go", "\t\t\tcookies = append(cookies[:i], cookies[i+1:]...)\n\t\t\tfasthttp.ReleaseCookie(c)\n\t\t\ti--\n", "\t\t\tcookies[i] = cookies[len(cookies)-1]\n\t\t\tcookies = cookies[:len(cookies)-1]\n\t\t\tfasthttp.ReleaseCookie(c)\n", "steps-back", "the cookie moved into the slot is not examined")
+v("C18", "n10-swap-removal-with-step-back", "benign", "client/cookiejar.go", "\t\t\tcookies = append(cookies[:i], cookies[i+1:]...)\n\t\t\tfasthttp.ReleaseCookie(c)\n\t\t\ti--\n", "\t\t\tcookies[i] = cookies[len(cookies)-1]\n\t\t\tcookies = cookies[:len(cookies)-1]\n\t\t\tfasthttp.ReleaseCookie(c)\n\t\t\ti--\n", why="swap with the last element, the index stepped back")
+v("C18", "b18-path-params-sorted-by-length-only", "break", "client/request.go", "\t\tif len(keys[i]) != len(keys[j]) {\n\t\t\treturn len(keys[i]) > len(keys[j])\n\t\t}\n\t\treturn keys[i] < keys[j]\n", "\t\treturn len(keys[i]) > len(keys[j])\n", "total-order", "ties keep map order")
+v("C20", "b9-expired-cookies-left-in-clear", "break", "middleware/encryptcookie/encryptcookie.go", "\t\t\t\tif c.Response().Header.Cookie(&cookieValue) {\n", "\t\t\t\tif c.Response().Header.Cookie(&cookieValue) {\n\t\t\t\t\tif cookieValue.Expire().Before(time.Now()) && !cookieValue.Expire().Equal(fasthttp.CookieExpireUnlimited) {\n\t\t\t\t\t\treturn\n\t\t\t\t\t}\n", "every-other-cookie-is-rewritten", "expired cookies skipped", file2="middleware/encryptcookie/encryptcookie.go", find2="import (\n", replace2="import (\n\t\"time\"\n")
 
 os.makedirs('/verif/selftest', exist_ok=True)
 for prop, vs in V.items():
